@@ -301,6 +301,13 @@ def rule_atom(ctx: Ctx) -> RuleResult:
                         if isinstance(c, ast.Call) and (norm(c.func).split(".")[-1] in ("extend", "list", "tuple", "sorted")):
                             if any((isinstance(a, ast.Name) and a.id == holder) or a is n for a in c.args):
                                 consumed = True
+                            # ... or drained through a generator expression / comprehension that is itself the argument
+                            for a in c.args:
+                                if isinstance(a, (ast.GeneratorExp, ast.ListComp)) and a.generators and (
+                                        a.generators[0].iter is n or (isinstance(a.generators[0].iter, ast.Name) and a.generators[0].iter.id == holder)):
+                                    consumed = True
+                        if isinstance(c, ast.ListComp) and c.generators and c.generators[0].iter is n:
+                            consumed = True
                         if isinstance(c, ast.For) and ((isinstance(c.iter, ast.Name) and c.iter.id == holder) or c.iter is n):
                             consumed = True
                     rr.instances += 1
@@ -418,6 +425,20 @@ def rule_exit1(ctx: Ctx) -> RuleResult:
                       VIOLATED if bad else DISCHARGED,
                       "exit with zero/absent status inside an exception handler" if bad else
                       ("non-zero status" if not zero else "zero status outside any handler"), n.lineno)
+    # ArgumentParser.exit(status=0, message=None): the default status is success
+    for f in sorted(cone, key=lambda x: x.key):
+        for n in walk_no_nested(f.node):
+            if isinstance(n, ast.Call) and isinstance(n.func, ast.Attribute) and n.func.attr == "exit" and \
+                    "pars" in norm(n.func.value).lower():
+                rr.instances += 1
+                stv = n.args[0] if n.args else next((k.value for k in n.keywords if k.arg == "status"), None)
+                zero = stv is None or (isinstance(stv, ast.Constant) and stv.value in (0, None, False))
+                has_msg = len(n.args) > 1 or any(k.arg == "message" for k in n.keywords)
+                rr.ob(f.relpath, f.qualname, norm(n)[:70], "a failure path never ends the process with status 0",
+                      VIOLATED if zero and has_msg else DISCHARGED,
+                      "ArgumentParser.exit() with an error message and the default status 0: the failure is reported on stderr but "
+                      "the process (and SystemExit for library callers) signals success" if zero and has_msg else "non-zero status",
+                      n.lineno)
     # returns from main inside handlers
     for n in walk_no_nested(main.node):
         if isinstance(n, ast.Return):
@@ -658,6 +679,24 @@ def rule_lookup1(ctx: Ctx) -> RuleResult:
                     return False
                 return (isinstance(c.func, ast.Name) and c.func.id == loader) or loader in args
             called = any(_loads(c) for s in p.stmts() for c in ast.walk(s))
+            if not called:
+                # a memo hit: the same path (the path itself, not a part of it) was loaded earlier in this call
+                for st_ in ast.walk(lp):
+                    if isinstance(st_, ast.Assign) and isinstance(st_.targets[0], ast.Subscript) and any(_loads(c) for c in ast.walk(st_.value)):
+                        key = st_.targets[0].slice
+                        if isinstance(key, ast.Name) and key.id != pv:
+                            ds = [d for d in ast.walk(lp) if isinstance(d, ast.Assign) and norm(d.targets[0]) == key.id]
+                            if len(ds) == 1:
+                                key = ds[0].value
+                        elems = key.elts if isinstance(key, ast.Tuple) else [key]
+                        whole_path = any(isinstance(e, ast.Name) and e.id == pv for e in elems)
+                        memo = norm(st_.targets[0].value)
+                        # the path took the "already in the memo" side of a membership test on that memo
+                        hit = any(isinstance(c_, ast.Compare) and norm(c_.comparators[0]) == memo and (
+                            (isinstance(c_.ops[0], ast.NotIn) and tv is False) or (isinstance(c_.ops[0], ast.In) and tv is True))
+                            for c_, tv in p.conds())
+                        if whole_path and hit:
+                            called = True
             rr.ob(sm.relpath, sm.qualname, p.describe()[:100] or f"for {pv} in process_path(...)",
                   f"every matched path is opened and parsed by the selected loader (`{loader}({pv})`), so an unreadable or "
                   f"malformed file fails the run wherever it stands", DISCHARGED if called else VIOLATED,
